@@ -25,5 +25,7 @@ Definition dispatch (u : Z) (a : sx) : sx :=
   | 16 => u_minimax a
   | 17 => u_ranked_pairs a
   | 18 => u_kemeny a
+  | 19 => u_validate a
+  | 20 => u_eliminate a
   | _ => bad_input
   end.
